@@ -31,6 +31,7 @@ def run(ctx, rep):
     extend_flag(ctx.prog, rep)
     tight_length_guards(ctx.prog, rep)
     overlong_warning(ctx.prog, rep)
+    demo_finish(ctx.prog, rep)
 
 
 def _err_returns(body):
@@ -345,3 +346,40 @@ def overlong_warning(prog, rep):
                "warn(OverlongIntEncoding) only when len > 1 and the last byte read is 0" if ok else
                "the overlong warning %s: canonical encodings with a zero group before their last byte would be warned about"
                % ("is issued inside the continuation loop" if inloop else "is not conditioned on `len > 1 && last byte == 0` (%s)" % conds[:3]), r.loc(ln))
+
+
+def demo_finish(prog, rep):
+    """R2c: Unpacker::finish in demo mode (messages are zero-padded to a multiple of four): ExcessData is warned about when at
+    least 4 bytes are left or any left-over byte is non-zero -- `rest.len() >= 4 || rest.iter().any(|&b| b != 0)`"""
+    from .common import disjunct_relations, rel_text
+    from ..bits import BitEval, Unsupported
+    rule = "R2c-demo-finish"
+    b = prog.one(P + "Unpacker::finish")
+    ir = IR(b)
+    warns = [(bi, t) for bi, t in b.calls() if (t.get("callee") or "").endswith("::warn")]
+    sites = []
+    for bi, t in warns:
+        from .common import holds_at
+        if any(r[0] == "bool" and "demo" in show(strip_sites(r[1])) and r[2] is True for r in holds_at(ir, bi)):
+            sites.append((bi, t))
+    rep.floor(rule, len(sites), 1, "demo-mode warn(ExcessData) in Unpacker::finish")
+    be = BitEval(prog)
+    for bi, t in sites:
+        rels = disjunct_relations(b, ir, bi)
+        len_ok = any(r[0] != "bool" and r[1] == "Ge" and r[0][0] == "len" and r[2][0] == "c" and r[2][1] == 4 for r in rels)
+        any_ok = False
+        for r in rels:
+            e = r[1] if r[0] == "bool" else None
+            if e is not None and r[2] is True and e[0] == "call" and e[1].endswith("::any"):
+                cl = [x for x in walk(e) if isinstance(x, tuple) and x and x[0] == "agg" and x[1] == "closure"]
+                if cl:
+                    try:
+                        ce, rb = be.ret_expr(cl[0][2])
+                        if ce[0] == "bin" and ce[1] == "Ne" and ce[3][0] == "c" and ce[3][1] == 0:
+                            any_ok = True
+                    except Unsupported:
+                        pass
+        rep.ob(rule, "excess data in a demo message", len_ok and any_ok,
+               "warned about iff rest.len() >= 4 or a left-over byte is non-zero" if len_ok and any_ok else
+               "the demo-mode excess test is %s: canonical zero padding of up to 3 bytes must not warn, anything else must"
+               % ("; ".join(rel_text(r) for r in rels) or "not recognised"), b.loc(t.get("ln")))
